@@ -19,11 +19,28 @@ static Rsp c08_nv_read(Buf *b, uint32_t idx, const char *pw) {
     b_u16(b, 2); b_u16(b, 0);
     return run(b);
 }
+static void c08_neutral_line(Rsp r);
+/* an HMAC key as a primary of the owner hierarchy, subject to DA or not; used once with a right or wrong password */
+static void c08_auth_key(Buf *b, int noda, int ok) {
+    Buf t = {0}; b_u16(&t, ALG_KEYEDHASH); b_u16(&t, ALG_SHA256); b_u32(&t, noda ? 0x00040472u : 0x00040072u); b_u16(&t, 0); b_u16(&t, ALG_HMAC); b_u16(&t, ALG_SHA256); b_u16(&t, 0);
+    cmd_begin(b, ST_SESSIONS, CC_CreatePrimary); b_u32(b, RH_OWNER); auth_pw(b, "", 0); b_u16(b, 4 + 2); b_2b(b, noda ? "kn" : "kd", 2); b_u16(b, 0); b_2b(b, t.p, t.n); b_u16(b, 0); b_u32(b, 0); b_free(&t);
+    Rsp r = run(b); tr("d op=auth ent=exempt ok=1 rc=%u stores=%ld", r.rc, g_store_in_cmd);
+    if (r.rc != 0 || r.len < 14) return;
+    uint32_t h = g32(r.p + 10);
+    const char *pw = ok ? (noda ? "kn" : "kd") : "kx";
+    cmd_begin(b, ST_SESSIONS, CC_HMAC); b_u32(b, h); auth_pw(b, pw, 2); b_2b(b, "data", 4); b_u16(b, ALG_SHA256); r = run(b);
+    tr("d op=auth ent=%s ok=%d via=key rc=%u stores=%ld", noda ? "exempt" : "da", ok, r.rc, g_store_in_cmd);
+    cmd_begin(b, ST_NO_SESSIONS, CC_FlushContext); b_u32(b, h); r = run(b); c08_neutral_line(r);
+}
 static void c08_auth(Buf *b, const char *ent, int ok) {
     Rsp r;
-    if (!strcmp(ent, "da")) r = c08_nv_read(b, C08_IDX_DA, ok ? "da" : (chance(50) ? "dx" : ""));
-    else if (chance(50)) r = c08_nv_read(b, C08_IDX_NODA, ok ? "nd" : "nx");
-    else { cmd_begin(b, ST_SESSIONS, CC_ClockRateAdjust); b_u32(b, RH_OWNER); auth_pw(b, ok ? "" : "zz", ok ? 0 : 2); b_u8(b, 0); r = run(b); }
+    if (!strcmp(ent, "da")) { if (chance(30)) { c08_auth_key(b, 0, ok); return; } r = c08_nv_read(b, C08_IDX_DA, ok ? "da" : (chance(50) ? "dx" : "")); }
+    else { int k = rnd(4);
+        if (k == 0) r = c08_nv_read(b, C08_IDX_NODA, ok ? "nd" : "nx");
+        else if (k == 1) { c08_auth_key(b, 1, ok); return; }
+        else if (k == 2) { /* a PCR: its authValue is empty and it never counts */
+            uint8_t d[32] = {0}; cmd_begin(b, ST_SESSIONS, CC_PCR_Extend); b_u32(b, 16); auth_pw(b, ok ? "" : "zz", ok ? 0 : 2); b_u32(b, 1); b_u16(b, ALG_SHA256); b_bytes(b, d, 32); r = run(b); }
+        else { cmd_begin(b, ST_SESSIONS, CC_ClockRateAdjust); b_u32(b, RH_OWNER); auth_pw(b, ok ? "" : "zz", ok ? 0 : 2); b_u8(b, 0); r = run(b); } }
     tr("d op=auth ent=%s ok=%d rc=%u stores=%ld", ent, ok, r.rc, g_store_in_cmd);
 }
 #define C08_IDX_POL  0x01500003u
